@@ -57,6 +57,12 @@ CHECKS = {
          "CrossHair: element gate over every name of any allow-list entry + 16 dangerous names x 6 namespaces x tag types; attribute gate over all ordered selections of <= 3 keys from a 30-key alphabet with default and custom allow-lists; URI gate for every URI-valued attribute with values over a 16-character URL class alphabet (<= 3/4 chars) vs the browser scheme rule (R6), and 11 concrete dangerous schemes with a hole at every position under the default lists incl. data: content types; CSS gate over an 18-character CSS alphabet (<= 3/5 chars) x 4 heads.",
     note="R6 browser scheme / data-URL MIME rules are my transcription of WHATWG URL / fetch; urlsplit's lru_cache unwrapped; all-Unicode closure only through the two z3 queries. " + NOTE_COMMON,
     design="§3 C09"),
+ "C15": dict(
+    technique="bounded symbolic execution (CrossHair/z3): the real meta-charset filter on head layouts composed by symbolic index; the real encoded serialization + re-parse of the bytes on skeleton x text x encoding x option choices by symbolic index (run concretely after the fork)",
+    text="Filter: for every head of 0..3 items out of 12 (meta charset, content-type pragmas in both attribute orders and letter cases, other metas, link, title, whitespace, comment, namespaced charset) or an empty head, and 7 encodings: the output head contains a meta declaring the encoding, no declaration of another encoding survives, exactly one meta is injected iff there was none, all other tokens are unchanged and in order, injected tokens are complete walker tokens. "
+         "Bytes: 5 skeletons (incl. a declaration beyond the 1024-byte prescan window) x 7 text probes x 6 ASCII-compatible encodings x optional-tag omission x walker: render(encoding) succeeds, the parser with no hints reports that encoding and builds the same tree as from the unencoded serialization.",
+    note="NOT APPLICABLE dimension: str.encode / codecs / decoders are C code - the byte level is executed on representatives, not closed symbolically over characters or encodings. Known findings: sanitize=True escapes the injected meta; utf-16 output. " + NOTE_COMMON,
+    design="§3 C15"),
  "C02": dict(
     technique="bounded symbolic execution (CrossHair/z3) of the real tokenizer state methods from catalogue pre-states on a symbolic continuation of arbitrary Unicode characters, differentially against an independent transcription of the WHATWG tokenizer (R1)",
     text="For every state method of the live HTMLTokenizer class (catalogue rebuilt from /repo at check time: 119 pre-states over 7 configurations = 5 start states x last start tag x CDATA allowed/not) the real tokenizer is run from that pre-state on EVERY string of <= 2 (quick) / 3 (thorough) Unicode characters followed by end of input, "
